@@ -13,11 +13,17 @@
 (* ON key) happen at instruction boundaries; firmware writes to IMR / ISR are   *)
 (* instructions.  Programs are not fixed: every step the CPU executes an        *)
 (* instruction chosen from the alphabet, so all short programs are covered.     *)
+(*                                                                              *)
+(* AckOnReturn: the hardware leaves ISR to the firmware (Python model); the     *)
+(* Rust core additionally acknowledges, at RETI, the source the handler was     *)
+(* entered for.  Which source that is, when several enabled requests are        *)
+(* pending at entry, is left open (frames[k].src is any of them).               *)
 EXTENDS Integers, Sequences, FiniteSets, TLC
 
 CONSTANTS DeliverPhase,     \* "end" | "start"
           ImrVals,          \* values firmware writes to IMR
-          MaxDepth, RecordActs, MaxNest
+          MaxDepth, RecordActs, MaxNest,
+          AckOnReturn       \* does RETI clear the status bit of the source the handler was entered for
 
 Src == {0, 1, 2, 3}          \* MTI STI KEY ONK
 Prio == <<2, 3, 0, 1>>       \* KEY > ONK > MTI > STI
@@ -30,23 +36,25 @@ VARIABLES imr,        \* 0..255
           power,      \* "run" | "halt" | "off"
           pc,         \* abstract position: <<"main", k>> or <<"h", level, k>>
           flags,      \* abstract F value (changed by "ALU" instructions)
-          frames,     \* stack of [pc, f, imr] saved at delivery (innermost last)
+          frames,     \* stack of [pc, f, imr, src] saved at delivery (innermost last)
           delivered,  \* TRUE iff the latest step took an interrupt
           last,       \* name of the latest action
           timersOn,   \* are the timers running (they stop in OFF)
+          ack,        \* status bits the latest step was entitled to acknowledge (firmware write / matching return)
           acts, depth
 
-vars == <<imr, isr, power, pc, flags, frames, delivered, last, timersOn, acts, depth>>
+vars == <<imr, isr, power, pc, flags, frames, delivered, last, timersOn, ack, acts, depth>>
 Rec(a) == IF RecordActs THEN Append(acts, a) ELSE acts
 InInt == frames # <<>>
 Enabled(m, s) == Bit(m, 7) = 1 /\ (BitsOf(m) \cap s) # {}
 Advance(p) == [p EXCEPT ![Len(p)] = @ + 1]
 
 Init == /\ imr = 0 /\ isr = {} /\ power = "run" /\ pc = <<"main", 0>> /\ flags = 0 /\ frames = <<>>
-        /\ delivered = FALSE /\ last = "Init" /\ timersOn = TRUE /\ acts = <<>> /\ depth = 0
+        /\ delivered = FALSE /\ last = "Init" /\ timersOn = TRUE /\ ack = {} /\ acts = <<>> /\ depth = 0
 
 \* taking an interrupt from CPU state (p, f, m): push the frame, clear IRM, go to the vector
-Take(p, f, m) == /\ frames' = Append(frames, [pc |-> p, f |-> f, imr |-> m])
+SrcChoices(m, s) == IF AckOnReturn THEN BitsOf(m) \cap s ELSE {CHOOSE x \in BitsOf(m) \cap s : TRUE}
+Take(p, f, m, s) == /\ \E x \in SrcChoices(m, s) : frames' = Append(frames, [pc |-> p, f |-> f, imr |-> m, src |-> x])
                  /\ imr' = m - 128 /\ pc' = <<"h", Len(frames) + 1, 0>> /\ flags' = f
 
 \* ---- the instruction alphabet (effects on <<pc, flags, imr, isr, power, frames>>)
@@ -58,13 +66,15 @@ Exec(ins, p, f, m, s) ==
     [] ins.k = "HALT"   -> [pc |-> Advance(p), f |-> f, imr |-> m, isr |-> s, power |-> "halt", pop |-> FALSE]
     [] ins.k = "OFF"    -> [pc |-> Advance(p), f |-> f, imr |-> m, isr |-> s, power |-> "off", pop |-> FALSE]
     [] ins.k = "RETI"   -> LET fr == frames[Len(frames)] IN
-                           [pc |-> fr.pc, f |-> fr.f, imr |-> fr.imr, isr |-> s, power |-> "run", pop |-> TRUE]
+                           [pc |-> fr.pc, f |-> fr.f, imr |-> fr.imr, isr |-> IF AckOnReturn THEN s \ {fr.src} ELSE s, power |-> "run", pop |-> TRUE]
 
 Alphabet == {[k |-> "NOP"], [k |-> "ALU"], [k |-> "HALT"], [k |-> "OFF"]}
             \cup {[k |-> "SETIMR", v |-> v] : v \in ImrVals}
             \cup {[k |-> "CLRISR", m |-> {i}] : i \in Src}
             \cup (IF InInt THEN {[k |-> "RETI"]} ELSE {})
 
+\* what an instruction may acknowledge: the bits the firmware names, or the source of the frame a RETI returns from
+MayAck(ins) == IF ins.k = "CLRISR" THEN ins.m ELSE IF ins.k = "RETI" /\ AckOnReturn THEN {frames[Len(frames)].src} ELSE {}
 Bound(name, a) == depth < MaxDepth /\ depth' = depth + 1 /\ acts' = Rec(a) /\ last' = name
 
 \* ---- one CPU step
@@ -74,46 +84,47 @@ StepRun(ins) ==
   /\ timersOn' = timersOn
   /\ IF DeliverPhase = "start" /\ Enabled(imr, isr) /\ Len(frames) < MaxNest
      THEN \* take the interrupt first; the handler's first instruction (a NOP) runs in the same step
-          /\ Take(pc, flags, imr) /\ delivered' = TRUE /\ isr' = isr /\ power' = "run"
+          /\ Take(pc, flags, imr, isr) /\ delivered' = TRUE /\ isr' = isr /\ power' = "run" /\ ack' = {}
      ELSE LET r == Exec(ins, pc, flags, imr, isr)
               fr2 == IF r.pop THEN SubSeq(frames, 1, Len(frames) - 1) ELSE frames IN
           IF DeliverPhase = "end" /\ r.power = "run" /\ Enabled(r.imr, r.isr) /\ Len(fr2) < MaxNest
-          THEN /\ frames' = Append(fr2, [pc |-> r.pc, f |-> r.f, imr |-> r.imr])
+          THEN /\ \E x \in SrcChoices(r.imr, r.isr) : frames' = Append(fr2, [pc |-> r.pc, f |-> r.f, imr |-> r.imr, src |-> x])
+               /\ ack' = MayAck(ins)
                /\ imr' = r.imr - 128 /\ pc' = <<"h", Len(fr2) + 1, 0>> /\ flags' = r.f
                /\ isr' = r.isr /\ power' = "run" /\ delivered' = TRUE
           ELSE /\ frames' = fr2 /\ imr' = r.imr /\ pc' = r.pc /\ flags' = r.f /\ isr' = r.isr /\ power' = r.power
                /\ delivered' = FALSE
-               /\ TRUE
+               /\ ack' = MayAck(ins)
 
 \* a halted CPU executes nothing; any status bit wakes it (the interrupt, if enabled, is then taken as in a running step)
 StepHalt ==
   /\ power = "halt"
   /\ Bound("StepHalt", [ev |-> "Step", ins |-> [k |-> "IDLE"]])
-  /\ UNCHANGED <<flags, timersOn>>
+  /\ UNCHANGED <<flags, timersOn>> /\ ack' = {}
   /\ IF isr = {} THEN UNCHANGED <<imr, isr, power, pc, frames>> /\ delivered' = FALSE
      ELSE IF Enabled(imr, isr) /\ Len(frames) < MaxNest
-          THEN Take(pc, flags, imr) /\ delivered' = TRUE /\ isr' = isr /\ power' = "run"
+          THEN Take(pc, flags, imr, isr) /\ delivered' = TRUE /\ isr' = isr /\ power' = "run"
           ELSE power' = "run" /\ delivered' = FALSE /\ UNCHANGED <<imr, isr, pc, frames>>
 
 \* a powered-off CPU executes nothing, its timers are stopped, only the ON key wakes it
 StepOff ==
   /\ power = "off"
   /\ Bound("StepOff", [ev |-> "Step", ins |-> [k |-> "IDLE"]])
-  /\ UNCHANGED <<flags>>
+  /\ UNCHANGED <<flags>> /\ ack' = {}
   /\ IF 3 \notin isr THEN UNCHANGED <<imr, isr, power, pc, frames>> /\ delivered' = FALSE /\ timersOn' = FALSE
      ELSE /\ timersOn' = TRUE
           /\ IF Enabled(imr, isr \cap {3}) /\ Len(frames) < MaxNest
-             THEN Take(pc, flags, imr) /\ delivered' = TRUE /\ isr' = isr \cap {3} /\ power' = "run"
+             THEN Take(pc, flags, imr, isr \cap {3}) /\ delivered' = TRUE /\ isr' = isr \cap {3} /\ power' = "run"
              ELSE power' = "run" /\ delivered' = FALSE /\ isr' = isr \cap {3} /\ UNCHANGED <<imr, pc, frames>>
 
 \* ---- environment at instruction boundaries
 TimerFire(s) == /\ s \in {0, 1} /\ power # "off" /\ s \notin isr
                 /\ Bound("TimerFire", [ev |-> "Timer", s |-> s])
-                /\ isr' = isr \cup {s} /\ delivered' = FALSE
+                /\ isr' = isr \cup {s} /\ delivered' = FALSE /\ ack' = {}
                 /\ UNCHANGED <<imr, power, pc, flags, frames, timersOn>>
 OnKey == /\ 3 \notin isr
          /\ Bound("OnKey", [ev |-> "OnKey"])
-         /\ isr' = isr \cup {3} /\ delivered' = FALSE
+         /\ isr' = isr \cup {3} /\ delivered' = FALSE /\ ack' = {}
          /\ UNCHANGED <<imr, power, pc, flags, frames, timersOn>>
 
 Next == (\E ins \in Alphabet : StepRun(ins)) \/ StepHalt \/ StepOff \/ (\E s \in {0, 1} : TimerFire(s)) \/ OnKey
@@ -132,6 +143,13 @@ RetiRestores == [][(last' = "Step" /\ acts' # acts /\ RecordActs /\ Len(frames')
                      => <<pc', flags', imr'>> = <<frames[Len(frames)].pc, frames[Len(frames)].f, frames[Len(frames)].imr>>]_vars
 \* C12: a pending request that is enabled at a step boundary of a running CPU outside handlers is taken by that step
 PromptWhenEnabled == [][(power = "run" /\ Enabled(imr, isr) /\ Len(frames) < MaxNest /\ last' = "Step" /\ DeliverPhase = "start") => delivered']_vars
+\* C12: a pending request is not lost: while the machine is powered a status bit goes away only because the firmware
+\* cleared it or (AckOnReturn) because a handler that was entered for it - enabled and pending at entry - returns
+StatusNotLost == [][(power # "off") => (isr \ isr') \subseteq ack']_vars
+EnteredForEnabledPending == delivered => LET fr == frames[Len(frames)] IN fr.src \in BitsOf(fr.imr) /\ fr.src \in isr
+\* ... and is still there to be taken: outside handlers an enabled request that was pending before a step which did not
+\* acknowledge it is either taken by that step or still pending after it
+StillOwed == [][\A s \in isr : (power = "run" /\ s \notin ack') => (s \in isr' \/ power' = "off")]_vars
 \* C12: a halted CPU executes nothing and resumes exactly when a status bit is pending
 HaltIdle == [][(power = "halt" /\ last' = "StepHalt") => /\ (isr = {} => power' = "halt" /\ pc' = pc /\ flags' = flags /\ imr' = imr)
                                                           /\ (isr # {} => power' = "run")]_vars
